@@ -82,6 +82,7 @@ C02_FILES = {
     "a/sub/deep.py": "def fn(): pass\nfrom .. import m\n",
     "b/__init__.py": "", "b/k.py": "", "c.py": "", "pkg/__init__.py": "", "pkg/inner/__init__.py": "", "pkg/inner/leaf.py": "", "pkg/side.py": "from .inner import leaf\n",
     "ns/plain.py": "", "ns/deeper/mod.py": "",     # namespace packages: directories without __init__.py
+    "grp/part/leafmod.py": "",                      # a directory that only groups sub directories (no python file directly inside) is a module all the same
 }
 # edges the fixed files contribute themselves (independent of the generated user file)
 C02_FIXED_EDGES = {("proj.a.m", "proj.a.n"), ("proj.a.m", "proj.b.k"), ("proj.a.sub.__init__", "proj.a.sub.deep"), ("proj.a.sub.deep", "proj.a.m"),
@@ -112,6 +113,10 @@ IMPORT_FORMS = [
     ("from proj.ns import deeper", ["proj.ns.deeper"]),
     ("from ...ns.deeper import mod", ["proj.ns.deeper.mod"]),
     ("import proj.ns.deeper.mod", ["proj.ns.deeper.mod"]),
+    ("from proj import grp", ["proj.grp"]),
+    ("from proj.grp import part", ["proj.grp.part"]),
+    ("from ...grp import part", ["proj.grp.part"]),
+    ("from proj.grp.part import leafmod", ["proj.grp.part.leafmod"]),
     # one statement naming scanned sub modules AND objects of the package: each name stands for its own edge (P.n for a module n, P otherwise)
     ("from proj.a import m, Obj", ["proj.a.m", "proj.a"]),
     ("from proj.a import Obj, n", ["proj.a", "proj.a.n"]),
@@ -166,8 +171,8 @@ def _c02_case(args):
 
 def bounded_import_edges(tier, seed):
     b = Bounded("C02.import-statements-vs-edges", "every statement-list position of the running interpreter's grammar (read from the ast node classes; fails closed on an unknown one), nested to depth "
-                "1 (all) and depth 2 (all pairs in thorough, 60 random pairs in quick) x 29 import forms (plain, aliased, multi-name, from-name, from-submodule, mixed module/object names, star, relative levels 1-3, namespace packages), in a "
-                "regular file and inside an __init__ file, in a fixed 13-file project")
+                "1 (all) and depth 2 (all pairs in thorough, 60 random pairs in quick) x 33 import forms (plain, aliased, multi-name, from-name, from-submodule, mixed module/object names, star, relative levels 1-3, namespace packages), in a "
+                "regular file and inside an __init__ file, in a fixed 14-file project")
     pos = grammar_positions()
     unknown = sorted(p for p in pos if p not in TEMPLATES)
     if ("Try", "handlers") in unknown:
